@@ -146,6 +146,17 @@ def make_membership(shape: Dict[str, Any]) -> Any:
         ctx.check(bool(rrset.suppresses(a)) == bool(same and 2 * ttl_b > ttl_a), 'known-answer suppression is not "same record and more than half the TTL"')
         if same:
             ctx.check(hash(a) == hash(b), 'equal records have different hashes')
+        # the record cache: every lookup by record follows record identity, both ways round
+        from zeroconf._cache import DNSCache
+
+        for stored, probe in ((b, a), (a, b)):
+            cache = DNSCache()
+            cache.async_add_records([stored])
+            ctx.check((cache.get(probe) is not None) == same, 'DNSCache.get(record) does not follow record identity')
+            ctx.check((cache.async_get_unique(probe) is not None) == same, 'DNSCache.async_get_unique(record) does not follow record identity')
+            if same:
+                got = cache.get(probe)
+                ctx.check(got is stored, 'DNSCache.get(record) returned something other than the cached copy')
 
     return fn
 
